@@ -114,6 +114,8 @@ class Runner:
         self.reads_seed = reads_seed
         self._R = None
         self._F = {}
+        self._eng = {}
+        self.param_issues = []
 
     @property
     def R(self):
@@ -140,14 +142,33 @@ class Runner:
         # the same network objects are re-used for every engine / option set / level (stepping is
         # repeatable whatever was stepped or compiled before); only symbolic parameters need new elements
         R = self.R if not ptoks else impl.Real(self.net, self.pv, names=self.names, sym_params=sp, reads=self.reads())
-        eng = impl.CsEngine(sym)
+        # one engine object per symbol type serves every step and compilation of this runner: what it
+        # compiled before (other options, other levels) must not show in what it compiles now
+        eng = self._eng.setdefault(sym, impl.CsEngine(sym))
         R.net.step(engine=eng, **nets.opts_kwargs(opts or {}), **R.step_kwargs())
         params = {pname(t): sp[t] for t in (ptoks or [])} or None
         # the documented idiom: the keyword parameters of the step are passed again
         # (with extra outputs a declared model parameter must not be repeated as keyword: the flow
         # recomputation receives both dictionaries as keywords)
         other = {k: v for k, v in R.step_kwargs().items() if not (more_out and params and k in params)}
+        snap = list(params.items()) if params else None
         F = eng.to_function(R.net, compact=compact, more_out=more_out, parameters=params, **other)
+        if snap is not None:
+            # the caller's dictionary of declared parameters is left as it was, and compiling once more with
+            # the very same dictionary gives the same signature
+            if list(params) != [k for k, _ in snap] or any(params[k] is not v for k, v in snap):
+                self.param_issues.append(f"{sym} compact={compact} more_out={more_out}: to_function modified the supplied "
+                                         f"dictionary of declared parameters: keys {[k for k, _ in snap]} -> {list(params)}")
+                params = dict(snap)
+            try:
+                F2 = eng.to_function(R.net, compact=compact, more_out=more_out, parameters=params, **other)
+                if [F2.name_in(i) for i in range(F2.n_in())] != [F.name_in(i) for i in range(F.n_in())]:
+                    self.param_issues.append(f"{sym} compact={compact} more_out={more_out}: compiling again with the same "
+                                             f"arguments gives arguments {[F2.name_in(i) for i in range(F2.n_in())]} instead of "
+                                             f"{[F.name_in(i) for i in range(F.n_in())]}")
+            except Exception as ex:
+                self.param_issues.append(f"{sym} compact={compact} more_out={more_out}: compiling a second time with the same "
+                                         f"dictionary of declared parameters raised {ex!r:.200}")
         self._F[key] = (F, R)
         return F, R
 
@@ -271,32 +292,48 @@ def correspondence(out, ctx, cases, opts=None, engines=("np",), per_case_points=
     for ci, net in enumerate(cases):
         pv = nets.random_params(net, rng)
         pts = points_for(net, pv, rng, per_case_points)
-        # branch-targeted points: keep sampling (tree evaluation only) until both sides of every
-        # min / max / if node of the model trees were taken or the budget is exhausted
+        # branch-targeted points: keep sampling (tree evaluation only) while new PATHS (per result, the set
+        # of sides taken at its min / max / if nodes) of the model trees or of the specification trees turn
+        # up, within a budget; a law that differs only where several conditions hold together is reached
         tkey = "np" if mt.get("np") is not None else ("cs" if mt.get("cs") is not None else None)
+        tsets = []
         if tkey is not None and "ERR" not in mt[tkey][ci]:
-            trees_ = mt[tkey][ci]
-            total = 2 * sum(tree.count_branch_nodes(t_) for k_, t_ in trees_.items()
+            tsets.append(mt[tkey][ci])
+        if st is not None and isinstance(st[ci], dict) and "ERR" not in st[ci]:
+            tsets.append(st[ci])
+        if tsets:
+            total = 2 * sum(tree.count_branch_nodes(t_) for k_, t_ in tsets[0].items()
                             if not (isinstance(t_, tuple) and t_ and t_[0] == "!"))
-            covered = set()
+            covered, paths = set(), set()
+
+            def sides(sv_):
+                sd, ph = set(), set()
+                for ti_, trees_ in enumerate(tsets):
+                    for k_, (v_, m_, br_) in dyn.eval_all(trees_, dyn.env_of(pv, sv_)).items():
+                        if ti_ == 0:
+                            sd |= {(k_, b_) for b_ in br_}
+                        ph.add((ti_, k_, frozenset(br_)))
+                return sd, ph
             for _, sv_ in pts:
-                for k_, (v_, m_, br_) in dyn.eval_all(trees_, dyn.env_of(pv, sv_)).items():
-                    covered |= {(k_, b_) for b_ in br_}
+                sd, ph = sides(sv_)
+                covered |= sd
+                paths |= ph
             extra = 0
-            for _ in range(40 if ctx["tier"] == "quick" else 400):
-                if len(covered) >= total or extra >= (3 if ctx["tier"] == "quick" else 12):
+            quick_ = ctx["tier"] == "quick"
+            for it_ in range(60 if quick_ else 600):
+                if extra >= (5 if quick_ else 30):
                     break
-                sv_ = dyn.admissible_state(net, pv, rng, "boundary")
-                new = set()
-                for k_, (v_, m_, br_) in dyn.eval_all(trees_, dyn.env_of(pv, sv_)).items():
-                    new |= {(k_, b_) for b_ in br_}
-                if new - covered:
-                    covered |= new
+                sv_ = dyn.admissible_state(net, pv, rng, "boundary" if it_ % 2 else "interior")
+                sd, ph = sides(sv_)
+                if (sd - covered) or (ph - paths):
+                    covered |= sd
+                    paths |= ph
                     pts.append(("targeted", sv_))
                     extra += 1
-            cov = out["coverage"].setdefault("branch_sides", {"total": 0, "covered": 0})
+            cov = out["coverage"].setdefault("branch_sides", {"total": 0, "covered": 0, "paths": 0})
             cov["total"] += total
             cov["covered"] += len(covered)
+            cov["paths"] = cov.get("paths", 0) + len(paths)
         # every other case interleaves look-up reads / validation with the construction calls
         run = Runner(net, pv, reads_seed=(ci * 31 + 7) if ci % 2 else None)
         oc = run.R.order_check()
@@ -594,7 +631,32 @@ def run_C03(ctx):
                         fail(out, f"C03:{topo_key(net)}:{sym}{compact}", net, pv, sv,
                              f"CasADi {sym} compact={compact}: {k} = {x!r}, NumPy step gives {y!r}",
                              reads_seed=run.reads_seed, sym=sym, compact=compact, more_out=more)
-    return finish(out, distinct, data, RULE + "; every point on SX and MX at compactness 0/1/2 vs the NumPy step")
+        # the same engine and the same network, stepped again with other options and compiled again with
+        # the very same to_function arguments: the function must be the one of the latest step
+        sv = pts[0][1]
+        for sym in ("SX", "MX"):
+            o = {k: rng.random() < 0.6 for k in nets.OPT_KW}
+            compact = (ci + (sym == "MX")) % 3
+            more = bool((ci + compact) % 2)
+            try:
+                run.function(sym, compact, more)          # (already compiled above, or compiled now)
+                ref = run.numpy_step(sv, o)
+                F, _ = run.function(sym, compact, more, o)
+                vals, probs = run.call(F, compact, more, sv)
+            except Exception as ex:
+                fail(out, f"C03:{topo_key(net)}:restep-raise", net, pv, sv,
+                     f"{sym} compact={compact}: re-step with options {o} and compile again raised {ex!r:.300}", opts=o)
+                continue
+            out["coverage"]["evaluations"] += 1
+            bad = states_close(vals, ref, keys) if vals is not None else [("layout", probs, "")]
+            if bad:
+                k, x, y = bad[0]
+                fail(out, f"C03:{topo_key(net)}:restep:{sym}{compact}", net, pv, sv,
+                     f"CasADi {sym} compact={compact}, same engine and network stepped again with options "
+                     f"{[k_ for k_, v_ in o.items() if v_]} and compiled again: {k} = {x!r}, NumPy step with these options gives {y!r}",
+                     opts=o, sym=sym, compact=compact, more_out=more)
+    return finish(out, distinct, data, RULE + "; every point on SX and MX at compactness 0/1/2 vs the NumPy step; "
+                  "re-step with other options + re-compile on the same engine object")
 
 
 # ---------------------------------------------------------------------------
@@ -605,7 +667,15 @@ def colliding_names(net, rng):
     ls = sorted(net.links)
     os_ = sorted(net.origins)
     ds = sorted(net.dests)
-    mode = rng.choice(["links", "origins", "all", "cross"])
+    mode = rng.choice(["links", "origins", "all", "cross", "prefix"])
+    vsl = [l for l in ls if net.links[l]["vsl"] is not None]
+    if mode == "prefix":
+        # "v" + "_ctrl_X" (state of a link called ctrl_X) against "v_ctrl" + "_X" (action of the VSL link X)
+        if vsl and len(ls) >= 2:
+            names[("l", vsl[0])] = "X"
+            names[("l", [l for l in ls if l != vsl[0]][0])] = "ctrl_X"
+        else:
+            mode = "cross"
     if mode in ("links", "all") and len(ls) >= 2:
         for l in ls:
             names[("l", l)] = "A"
@@ -658,11 +728,13 @@ def run_C04(ctx):
                 continue
             lev = {}
             for sym in ("SX", "MX"):
-                for compact in (0, 1, 2):
-                    for more in ((False, True) if not quick or compact == ci % 3 else (bool(ci % 2),)):
-                        tag = f"{sym} compact={compact} more_out={more} names={'colliding' if variant else 'unique'}"
+                # levels outside 0..2 are documented too: <= 0 is level 0, > 1 is level 2
+                for compact_arg in (0, 1, 2, -1 - ci % 2, 3 + ci % 3):
+                    compact = min(max(compact_arg, 0), 2)
+                    for more in ((False, True) if not quick or compact_arg == ci % 3 or compact_arg > 2 else (bool(ci % 2),)):
+                        tag = f"{sym} compact={compact_arg} more_out={more} names={'colliding' if variant else 'unique'}"
                         try:
-                            F, R = run.function(sym, compact, more)
+                            F, R = run.function(sym, compact_arg, more)
                         except Exception as ex:
                             fail(out, f"C04:{topo_key(net)}:compile", net, pv, sv, f"{tag}: to_function raised {ex!r:.300}",
                                  names={str(k): v for k, v in names.items()})
@@ -850,7 +922,7 @@ def rebuilt(net, rng, scale=True):
     if scale:
         nodes_, edges = net.graph()
         for (n, _, _) in nodes_:
-            factors[n] = rng.choice([1.0, 0.5, 3.0, 10.0])
+            factors[n] = rng.choice([1.0, 0.5, 3.0, 10.0, 1e-6, 1e-3, 2.0 ** -20, 1e5])   # any positive factor
     return n2, names, factors
 
 
@@ -930,6 +1002,49 @@ def run_C14(ctx):
 
 # ---------------------------------------------------------------------------
 # C10: structural dependence of the compiled function  ⊆  variables of the specification tree
+def symbolic_deps(R, net):
+    """step the real network with an SX engine and return {result key: set of input tokens its expression
+    contains}; a symbol that is not a variable of this network is reported as 'foreign <name>'"""
+    import casadi as cs
+    eng = impl.CsEngine("SX")
+    R.net.step(engine=eng, **R.step_kwargs())
+    tok = {}
+
+    def reg(x, toks):
+        for i, t in enumerate(toks):
+            tok[x[i].__hash__()] = t
+    for l, v in net.links.items():
+        el = R.links[l]
+        reg(el.states["rho"], [f"rho.{l}.{i}" for i in range(v["N"])])
+        reg(el.states["v"], [f"v.{l}.{i}" for i in range(v["N"])])
+        if v["vsl"] is not None:
+            reg(el.actions["v_ctrl"], [f"vc.{l}.{k}" for k in range(len(v["vsl"]))])
+    for o, k in net.origins.items():
+        if k == "ideal":
+            continue
+        el = R.origins[o]
+        reg(el.states["w"], [f"w.{o}"])
+        reg(el.disturbances["d"], [f"d.{o}"])
+        for a in el.actions.values():
+            reg(a, [f"u.{o}"])
+    for d, k in net.dests.items():
+        if k == "cong":
+            reg(R.dests[d].disturbances["d"], [f"dd.{d}"])
+    deps = {}
+
+    def dep(key, expr):
+        deps[key] = {tok.get(s.__hash__(), "foreign " + s.name()) for s in cs.symvar(expr)}
+    for l, v in net.links.items():
+        ns = R.links[l].next_states
+        for i in range(v["N"]):
+            dep(f"rho+ {l} {i}", ns["rho"][i])
+            dep(f"v+ {l} {i}", ns["v"][i])
+    for o, k in net.origins.items():
+        if k != "ideal":
+            dep(f"w+ {o} 0", R.origins[o].next_states["w"])
+    return deps
+
+
 def run_C10(ctx):
     import casadi as cs
     out = new_outcome()
@@ -943,6 +1058,22 @@ def run_C10(ctx):
         if stree is None:
             continue
         sv = pts[0][1]
+        # the stepped expressions themselves (no compilation needed): every symbol a next state is built
+        # from must be one of its model neighbours; a symbol that is no variable of this network at
+        # all (left over from another network or an earlier step) is an outside influence as well
+        try:
+            deps = symbolic_deps(run.R, net)
+        except Exception as ex:
+            disagree(out, net, pv, sv, f"symbolic step raised {ex!r:.200}")
+            deps = {}
+        for okey, toks in deps.items():
+            allowed = tree.tree_vars(stree[okey])
+            out["coverage"]["evaluations"] += 1
+            for itok in sorted(toks - allowed):
+                fail(out, f"C10:{topo_key(net)}:sym:{okey.split()[0]}", net, pv, sv,
+                     f"SX step: the expression of {okey} contains {itok}, which is not among its model neighbours "
+                     f"{sorted(allowed & set(sv))} (case {ci} of this run: earlier cases were stepped before in the "
+                     f"same process)", observable=okey, input=itok, case_index=ci)
         for sym in (("SX",) if quick else ("SX", "MX")):
             for compact in ((0, ci % 2 + 1) if quick else (0, 1, 2)):
                 try:
@@ -1041,6 +1172,9 @@ def run_C16(ctx):
                         fail(out, f"C16:{topo_key(net)}:compile", net, pv, sv, f"{tag}: compiling with symbolic parameters raised {ex!r:.300}",
                              ptoks=ptoks, sym=sym, compact=compact)
                         continue
+                    while run.param_issues:
+                        fail(out, f"C16:{topo_key(net)}:dict", net, pv, sv, f"parameters={ptoks}: " + run.param_issues.pop(0),
+                             ptoks=ptoks, sym=sym, compact=compact)
                     vals, probs = run.call(Fp, compact, more, sv, ptoks)
                     out["coverage"]["evaluations"] += 1
                     distinct.add((topo_key(net), tuple(ptoks), sym, compact))
@@ -1422,7 +1556,8 @@ def run_C07(ctx):
     out["coverage"]["accepted_arbitrary_graphs"] = len(accepted)
     out["coverage"]["arbitrary_graphs_tried"] = len(cand)
     for ci, (net, pv, run) in enumerate(todo):
-        run = run or Runner(net, pv)
+        # a third of the networks: different elements share a name (validation compares objects, not names)
+        run = run or Runner(net, pv, names=colliding_names(net, rng) if ci % 3 == 1 else None)
         tk = topo_key(net)
         R = run.R
         if not R.net.is_valid()[0]:
@@ -1482,7 +1617,8 @@ def run_C07(ctx):
                                     fail(out, f"C07:{tk}:finite", net, pv, sv, f"CasADi {sym} compact={compact}: {k} = {vals[k]!r} for finite admissible inputs")
                                     break
                     except Exception as ex:
-                        fail(out, f"C07:{tk}:cs", net, pv, None, f"CasADi {sym} compact={compact} more_out={more}: step/compile raised {ex!r:.300}", sym=sym, compact=compact)
+                        fail(out, f"C07:{tk}:cs", net, pv, None, f"CasADi {sym} compact={compact} more_out={more}: step/compile raised {ex!r:.300}", sym=sym, compact=compact,
+                             names={str(k): v for k, v in run.names.items()})
             # shapes of symbolic next states
             try:
                 for el in list(R.links.values()) + list(R.origins.values()):
@@ -1655,6 +1791,63 @@ def run_C12(ctx):
                         break
         except Exception as ex:
             fail(out, f"C12:{tk}:repeat-raise", net, pv, sv, f"re-using the network objects raised {ex!r:.300}")
+        # a partial dictionary (a link given only its densities or only its speeds; some elements left out):
+        # nothing is added to what the caller supplied, and a second step from the same dictionary with another
+        # engine (whose own variables fill the gaps with another value) equals a fresh network's
+        try:
+            for rep, (fill1, fill2) in enumerate(((60.0, 90.0), ("rand", 12.5))):
+                Rp = impl.Real(net, pv)
+                full = Rp.init_conditions(sv, "vec1")
+                ic = {}
+                for j, (el, d) in enumerate(full.items()):
+                    if (j + ci + rep) % 4 == 3:
+                        continue                      # element left out entirely
+                    ks = list(d)
+                    ic[el] = {k: d[k] for k in ks if not ((j + rep) % 2 == 0 and k == ks[-1])}   # last entry left out
+                    if not ic[el] and rep == 0:
+                        ic[el] = dict(d)
+                shape_before = {id(el): [(k, id(v)) for k, v in d.items()] for el, d in ic.items()}
+                outer_before = [id(el) for el in ic]
+                with np.errstate(all="ignore"):
+                    Rp.net.step(init_conditions=ic, engine=impl.NpEngine(fill1), **Rp.step_kwargs())
+                    first = Rp.read_next()
+                out["coverage"]["evaluations"] += 1
+                if [id(el) for el in ic] != outer_before:
+                    fail(out, f"C12:{tk}:dict-outer", net, pv, sv, "a step from a partial dictionary of initial conditions added or removed elements of it")
+                for el, d in ic.items():
+                    if [(k, id(v)) for k, v in d.items()] != shape_before[id(el)]:
+                        fail(out, f"C12:{tk}:dict-partial", net, pv, sv,
+                             f"a step from a partial dictionary changed the supplied dictionary of {el.name}: keys "
+                             f"{[k for k, _ in shape_before[id(el)]]} -> {list(d)}", fill=str(fill1))
+                        break
+                if fill2 != "rand" and fill1 != "rand":
+                    with np.errstate(all="ignore"):
+                        Rp.net.step(init_conditions=ic, engine=impl.NpEngine(fill2), **Rp.step_kwargs())
+                        second = Rp.read_next()
+                        Rq = impl.Real(net, pv)
+                        mp = {id(Rp.links[l]): Rq.links[l] for l in Rp.links}
+                        mp.update({id(Rp.origins[o]): Rq.origins[o] for o in Rp.origins})
+                        mp.update({id(Rp.dests[dd]): Rq.dests[dd] for dd in Rp.dests})
+                        icq = {mp[id(el)]: {k: full[el][k] for k, _ in shape_before[id(el)]} for el in ic}
+                        Rq.net.step(init_conditions=icq, engine=impl.NpEngine(fill2), **Rq.step_kwargs())
+                        fresh = Rq.read_next()
+                    for k in keys:
+                        if not same_float(second[k], fresh[k]):
+                            fail(out, f"C12:{tk}:partial-repeat", net, pv, sv,
+                                 f"second step from the same partial dictionary (engine variables filled with {fill2}, first step "
+                                 f"with {fill1}) gives {k} = {second[k]!r}; a fresh network from the same values gives {fresh[k]!r}")
+                            break
+        except Exception as ex:
+            fail(out, f"C12:{tk}:partial-raise", net, pv, sv, f"stepping from a partial dictionary of initial conditions raised {ex!r:.300}")
+        # declared symbolic parameters: the supplied dictionary is left alone, a second compilation with it works
+        try:
+            cand = [f"lp.{l}.{p_}" for l in net.links for p_ in ("rho_crit", "a", "v_free")][:3]
+            for sym in ("SX", "MX") if not quick or ci % 2 else ("SX",):
+                run.function(sym, ci % 3, True, None, cand)
+                while run.param_issues:
+                    fail(out, f"C12:{tk}:param-dict", net, pv, sv, run.param_issues.pop(0), ptoks=cand)
+        except Exception as ex:
+            fail(out, f"C12:{tk}:param-raise", net, pv, sv, f"compiling with declared parameters {cand} raised {ex!r:.300}")
         # user symbols supplied as initial conditions are not altered
         try:
             Rs = impl.Real(net, pv)
